@@ -21,7 +21,17 @@ MUT = {
  "hbt9": ("C16", "spine/device_local.go", "func (r *DeviceLocal) RemoveEntity(entity api.EntityLocalInterface) {\n", "func (r *DeviceLocal) RemoveEntity(entity api.EntityLocalInterface) {\n	// nothing to clean up or to announce for an entity that is not part of this device\n	r.mux.Lock()\n	known := false\n	for _, e := range r.entities {\n		if e == entity {\n			known = true\n		}\n	}\n	r.mux.Unlock()\n	if !known {\n		return\n	}\n\n", "RemoveEntity returns early for an entity the device does not list (heartbeat keeps running)"),
  "hbt10": ("C16", "spine/heartbeat_manager.go", "		case <-stopC:\n			return", "		case <-c.stopHeartbeatC:\n			_ = stopC\n			return", "the stream selects on the manager's field instead of its own stop channel"),
  "apr8": ("C12", "spine/feature_local.go", "		delete(r.pendingWriteApprovals[ski], *msg.RequestHeader.MsgCounter)\n		r.muxResponseCB.Unlock()\n\n		err := model.NewErrorTypeFromString(\"write not approved in time by application\")", "		delete(r.pendingWriteApprovals[ski], *msg.RequestHeader.MsgCounter)\n		r.muxResponseCB.Unlock()\n		r.muxWriteReceived.Lock()\n		delete(r.writeApprovalReceived, ski)\n		r.muxWriteReceived.Unlock()\n\n		err := model.NewErrorTypeFromString(\"write not approved in time by application\")", "the timeout of one write deletes the approval tallies of all pending writes of the peer"),
+ "hbt11": ("C16", "spine/subscription_manager.go", "	var result []*api.SubscriptionEntry\n\n	c.mux.Lock()\n	defer c.mux.Unlock()\n\n	linq.From(c.subscriptionEntries).WhereT(func(s *api.SubscriptionEntry) bool {\n		return reflect.DeepEqual(*s.ServerFeature.Address(), featureAddress)\n	}).ToSlice(&result)\n\n	return result", "	c.mux.Lock()\n	defer c.mux.Unlock()\n\n	// reuse the scratch slice of the manager\n	result := hbtScratch[:0]\n	for _, s := range c.subscriptionEntries {\n		if reflect.DeepEqual(*s.ServerFeature.Address(), featureAddress) {\n			result = append(result, s)\n		}\n	}\n	hbtScratch = result\n\n	return result", "SubscriptionsOnFeature returns a slice that aliases shared scratch storage (iterated after the lock is released)"),
+ "hbt12": ("C16", "spine/heartbeat_manager.go", "	go c.updateHeartbeatData(c.stopHeartbeatC, timeout)", "	timeout = hbtRaw[c]\n	go c.updateHeartbeatData(c.stopHeartbeatC, timeout)", "the ticker period is taken from the raw configured duration instead of the announced (0.1 s truncated) timeout"),
+ "apr9": ("C12", "spine/feature_local.go", "	delete(r.pendingWriteApprovals, ski)\n	delete(r.pendingWriteMessages, ski)\n	delete(r.writeApprovalReceived, ski)", "	for counter := range r.pendingWriteApprovals[ski] {\n		delete(r.writeApprovalReceived[ski], counter)\n	}\n	delete(r.pendingWriteApprovals, ski)\n	delete(r.pendingWriteMessages, ski)", "disconnect deletes only the tallies of still-pending writes: the tally of a timed-out write survives and a reused counter inherits it"),
+ "apr10": ("C12", "spine/feature_local.go", "		if approvalRequired {\n			r.addPendingApproval(message)", "		if approvalRequired {\n			if message.FilterPartial != nil || message.FilterDelete != nil {\n				// pre-validation: would the write be refused?\n				r.mux.Lock()\n				if fd := r.functionData(*cmdData.Function); fd != nil {\n					if _, e := fd.UpdateDataAny(true, false, cmdData.Value, message.FilterPartial, message.FilterDelete); e != nil {\n						r.mux.Unlock()\n						return e\n					}\n				}\n				r.mux.Unlock()\n			}\n			r.addPendingApproval(message)", "dry run (persist=false) of partial/delete writes before the callbacks are asked: modifies stored items in place"),
  "hbt8": ("C16", "spine/heartbeat_manager.go", "		close(c.stopHeartbeatC)\n	}\n}", "		close(c.stopHeartbeatC)\n		c.stopHeartbeatC = nil\n	}\n}", "stop forgets the channel (harmless variant: must NOT be flagged except through the model)"),
+}
+EXTRA = {
+ "hbt11": [("spine/subscription_manager.go", "type SubscriptionManager struct {", "var hbtScratch []*api.SubscriptionEntry\n\ntype SubscriptionManager struct {")],
+ "hbt12": [("spine/heartbeat_manager.go", "		heartBeatTimeout: model.NewDurationType(timeout),\n	}\n", "		heartBeatTimeout: model.NewDurationType(timeout),\n	}\n	hbtRawMu.Lock()\n	hbtRaw[h] = timeout\n	hbtRawMu.Unlock()\n"),
+           ("spine/heartbeat_manager.go", "var _ api.HeartbeatManagerInterface = (*HeartbeatManager)(nil)", "var _ api.HeartbeatManagerInterface = (*HeartbeatManager)(nil)\n\nvar hbtRaw = map[*HeartbeatManager]time.Duration{}\nvar hbtRawMu sync.Mutex"),
+           ("spine/heartbeat_manager.go", "	timeout = hbtRaw[c]\n", "	hbtRawMu.Lock()\n	timeout = hbtRaw[c]\n	hbtRawMu.Unlock()\n")],
 }
 ENV = dict(os.environ, GOFLAGS="-mod=mod", GOPROXY="off", GOSUMDB="off", GOTOOLCHAIN="local")
 def sh(cmd, **kw):
@@ -35,6 +45,10 @@ def run(name, tier="quick", base="HEAD"):
     if a not in src:
         print(name, "PATTERN NOT FOUND"); sh("git -C /repo worktree remove --force %s" % d); return
     open(os.path.join(d, f), "w").write(src.replace(a, b, 1))
+    for f2, a2, b2 in EXTRA.get(name, []):
+        src2 = open(os.path.join(d, f2)).read()
+        assert a2 in src2, (name, f2)
+        open(os.path.join(d, f2), "w").write(src2.replace(a2, b2, 1))
     b1 = sh("go build ./... && go build -tags verif ./...", cwd=d)
     if b1.returncode != 0:
         print(name, "DOES NOT BUILD", b1.stdout[-500:]); sh("git -C /repo worktree remove --force %s" % d); return
